@@ -60,3 +60,7 @@ pub open spec fn spec_cap_of(mask: usize) -> int {
         ((mask as int + 1) / 8) * 7
     }
 }
+
+pub open spec fn spec_elt(size: usize) -> int {
+    if size == 0 { 1 } else { size as int }
+}
